@@ -330,7 +330,11 @@ def validate_once(d, module, cfg_tpl, trace, flags, invariants, timeout=900):
     st = tlc_stats(out)
     err = tlc_error(out)
     if err is None and st is not None and "Model checking completed. No error" in out:
-        return True, {"states": st["distinct"]}
+        used = []
+        for line in out.splitlines():
+            if line.startswith('"DEV-USED'):
+                used = sorted(set(re.findall(r"D_[A-Z_]+", line)))
+        return True, {"states": st["distinct"], "used": used}
     rej = None
     for line in out.splitlines():
         if line.startswith('<<"TRACE-REJECTED'):
@@ -356,15 +360,9 @@ def validate(d, module, cfg_tpl, trace, invariants, known, timeout=900):
     ok2, det2 = validate_once(d, module, cfg_tpl, trace, known, invariants, timeout)
     if not ok2:
         return {"status": "violation", "flags": [], "detail": det2, "detail_ideal": det}
-    # attribution: which of the known deviations does this trace need?
-    needed = []
-    for f in known:
-        rest = [x for x in known if x != f]
-        okf, _ = validate_once(d, module, cfg_tpl, trace, rest, invariants, timeout)
-        if not okf:
-            needed.append(f)
-    if not needed:
-        needed = list(known)      # several flags explain it only together
+    # attribution: the deviations the accepted run actually went through (TLC registers
+    # set by Core!Flag at the places where pinned code and intended behaviour part)
+    needed = det2.get("used", [])
     return {"status": "known", "flags": needed, "states": det2["states"], "detail_ideal": det}
 
 
